@@ -1,4 +1,5 @@
 import PhysisModel.Base.Bytes
+import PhysisModel.Spec.Fiin   -- only for the UTF-8 automaton (`utf8Valid`)
 /-!
 # Gear-set files (`GEARSET.DAT`) — the documented layout, specification side
 
@@ -135,7 +136,8 @@ def SlotOK (s : Slot) : Prop := IdOK s.id ∧ s.glamour ≠ some 0
 
 def SetOK (g : GearSet) : Prop :=
   g.name ≠ [] ∧ g.name.length ≤ 46 ∧ 0 ∉ g.name ∧ g.slots.length = 14 ∧
-  (∀ s ∈ g.slots, ∀ x, s = some x → SlotOK x) ∧ g.facewear ≠ some 0
+  (∀ s ∈ g.slots, ∀ x, s = some x → SlotOK x) ∧ g.facewear ≠ some 0 ∧
+  Spec.Fiin.utf8Valid g.name = true      -- a name is text (a Rust `String`)
 
 def WF (t : Table) : Prop := t.sets.length = 100 ∧ ∀ s ∈ t.sets, ∀ g, s = some g → SetOK g
 
@@ -155,7 +157,8 @@ instance : (s : Option Slot) → Decidable (∀ x, s = some x → SlotOK x)
   | some x => if h : SlotOK x then isTrue (fun _ e => by cases e; exact h) else isFalse (fun f => h (f x rfl))
 instance (g) : Decidable (SetOK g) :=
   inferInstanceAs (Decidable (g.name ≠ [] ∧ g.name.length ≤ 46 ∧ 0 ∉ g.name ∧ g.slots.length = 14 ∧
-    (∀ s ∈ g.slots, ∀ x, s = some x → SlotOK x) ∧ g.facewear ≠ some 0))
+    (∀ s ∈ g.slots, ∀ x, s = some x → SlotOK x) ∧ g.facewear ≠ some 0 ∧
+    Spec.Fiin.utf8Valid g.name = true))
 instance : (s : Option GearSet) → Decidable (∀ g, s = some g → SetOK g)
   | none => isTrue (fun _ h => nomatch h)
   | some x => if h : SetOK x then isTrue (fun _ e => by cases e; exact h) else isFalse (fun f => h (f x rfl))
